@@ -866,8 +866,19 @@ func checkSumCopy(e *Env, r *cliRunner, c *CliCase) {
 		return
 	}
 	t := now - c.Deviate.Age
+	devV := float64(c.Deviate.V)
+	if c.UlpDev {
+		// one unit in the last place away from what the slot holds now
+		if raw, rerr := rawOf(db, c.DevArch); rerr == nil {
+			a := model.Arch{S: c.Cmd.Create.Archs[c.DevArch].S, N: c.Cmd.Create.Archs[c.DevArch].N}
+			if cur := model.Project(a, raw, model.Floor(t, a.S)); !math.IsNaN(cur) && !math.IsInf(cur, 0) {
+				devV = math.Nextafter(cur, math.Inf(1))
+				e.Probe("deviation-of-one-ulp")
+			}
+		}
+	}
 	_, pan := callSafely(func() error {
-		return db.UpdatePointsForArchive([]wt.Point{{Time: wt.Timestamp(t), Value: wt.Value(c.Deviate.V)}}, c.DevArch, wt.Timestamp(now))
+		return db.UpdatePointsForArchive([]wt.Point{{Time: wt.Timestamp(t), Value: wt.Value(devV)}}, c.DevArch, wt.Timestamp(now))
 	})
 	db.Sync()
 	db.Close()
